@@ -199,7 +199,41 @@ func onlyIgnoredDiffers(a, b []c06File) bool {
 		sort.Strings(xs)
 		return strings.Join(xs, "|")
 	}
-	return strip(a) == strip(b)
+	if strip(a) != strip(b) {
+		return false
+	}
+	// the NAME of an ignored file is still fed to the running hash: adding, removing or renaming one that
+	// sorts before a hashed file changes every later entry and IS detected; only an ignored file after the
+	// last hashed one (or an edit of an ignored file's content) is invisible by design
+	names := func(fs []c06File) map[string]bool {
+		m := map[string]bool{}
+		for _, f := range fs {
+			if isSQL(f.N) && isIgnored(f.B) {
+				m[f.N] = true
+			}
+		}
+		return m
+	}
+	lastHashed := ""
+	for _, fs := range [][]c06File{a, b} {
+		for _, f := range fs {
+			if isSQL(f.N) && !isIgnored(f.B) && f.N > lastHashed {
+				lastHashed = f.N
+			}
+		}
+	}
+	na, nb := names(a), names(b)
+	for n := range na {
+		if !nb[n] && n < lastHashed {
+			return false
+		}
+	}
+	for n := range nb {
+		if !na[n] && n < lastHashed {
+			return false
+		}
+	}
+	return true
 }
 
 func c06Bases() [][]c06File {
